@@ -61,6 +61,7 @@ type vfShape struct {
 	params                 int
 	decorator              bool
 	decorators             int // number of decorators when decorator is set (0 = 1)
+	byValue                bool // each service is created by a constructor or (symbolic choice) by a value
 	dRefS, dRefT, dRefP    bool
 }
 
@@ -141,15 +142,29 @@ func vfMakeGraphS(sh vfShape) *vfGraph {
 		if g.tag[i] != "" {
 			s.Tags = []Tag{{Name: g.tag[i]}}
 		}
+		// created by a constructor, whose arguments hold the @service slots, or by a
+		// value, where they sit in a call (a value service has no constructor arguments)
+		byValue := sh.byValue && vfBool("byValue")
+		if byValue {
+			s.Value = "V{}"
+		} else {
+			s.Constructor = "New"
+		}
 		// a slot that is not used leaves no argument behind (a service may have no arguments at all)
+		var refs []Arg
 		if g.refS[i] != "" {
-			s.Args = []Arg{{DependsOnServices: vfOne(g.refS[i])}}
+			refs = append(refs, Arg{DependsOnServices: vfOne(g.refS[i])})
 		}
 		if g.refS2[i] != "" {
-			s.Args = append(s.Args, Arg{DependsOnServices: vfOne(g.refS2[i])})
+			refs = append(refs, Arg{DependsOnServices: vfOne(g.refS2[i])})
+		}
+		if byValue && len(refs) > 0 {
+			s.Calls = append(s.Calls, Call{Method: "R", Args: refs})
+		} else {
+			s.Args = refs
 		}
 		if g.refT[i] != "" {
-			s.Calls = []Call{{Method: "M", Args: []Arg{{DependsOnTags: vfOne(g.refT[i])}}}}
+			s.Calls = append(s.Calls, Call{Method: "M", Args: []Arg{{DependsOnTags: vfOne(g.refT[i])}}})
 		}
 		if g.refP[i] != "" {
 			s.Fields = []Field{{Name: "F", Value: Arg{DependsOnParams: vfOne(g.refP[i])}}}
@@ -249,7 +264,7 @@ func VF_C07_cycles() {
 // that may refer back.
 func VF_C07_own_tag() {
 	g := vfMakeGraphS(vfShape{nsvc: 2, tags: []bool{true, true}, refS: []bool{false, true}, refT: []bool{true, false},
-		refP: []bool{false, false}})
+		refP: []bool{false, false}, byValue: true})
 	err := ValidateCircularDeps(g.o)
 	r := g.closure()
 	cyclic := false
@@ -271,7 +286,7 @@ func VF_C07_own_tag() {
 // dangling: a dangling reference hides nothing that comes after it.
 func VF_C07_two_refs() {
 	g := vfMakeGraphS(vfShape{nsvc: 2, tags: []bool{false, false}, refS: []bool{true, true}, refS2: []bool{true, true}, refT: []bool{false, false},
-		refP: []bool{false, false}})
+		refP: []bool{false, false}, byValue: true})
 	err := ValidateCircularDeps(g.o)
 	r := g.closure()
 	cyclic := false
@@ -336,7 +351,7 @@ func VF_C05_scopes() {
 	} else {
 		// quick: s0 -> (@ | !tagged); s1 carries a tag; a decorator on a tag refers to a service
 		g = vfMakeGraphS(vfShape{nsvc: 2, tags: []bool{false, true}, refS: []bool{true, false}, refT: []bool{true, false},
-			refP: []bool{false, false}, decorator: true, dRefS: true})
+			refP: []bool{false, false}, decorator: true, dRefS: true, byValue: true})
 	}
 	vfCheckScopes(g, "C05_scopes")
 }
